@@ -45,6 +45,11 @@ static std::vector<uint64_t> g_cov[8];
 static uint64_t g_cov_count;
 static const char *g_what = "";
 
+// coverage feedback for libFuzzer: the decoders and both handshake engines are bytecode run by one
+// small C loop, so compiler edge coverage sees almost nothing of their control flow; the T0 program
+// counter is fed into the extra-counters section instead
+__attribute__((section("__libfuzzer_extra_counters"), used)) static uint8_t t0_counters[1 << 15];
+
 static void fatal(const char *fmtstr, ...) __attribute__((noreturn));
 static void fatal(const char *fmtstr, ...)
 {
@@ -67,6 +72,7 @@ extern "C" void br_verif_t0_step(int id, void *t0ctx, const uint32_t *dp, const 
 	if ((int)(dp - ds) > g_max_dp) g_max_dp = (int)(dp - ds);
 	if ((int)(rp - rs) > g_max_rp) g_max_rp = (int)(rp - rs);
 	if (++g_steps > g_limit) fatal("T0 interpreter %d: %llu instructions executed, bound for this input is %llu (unbounded work)", id, (unsigned long long)g_steps, (unsigned long long)g_limit);
+	{ uint8_t &c = t0_counters[((size_t)id * 4099 + ipoff) & ((1 << 15) - 1)]; if (c != 255) c++; }
 	if (id >= 1 && id <= 7 && ipoff < 65536) {
 		std::vector<uint64_t> &bm = g_cov[id];
 		if (bm.empty()) bm.assign(1024, 0);
